@@ -15,7 +15,7 @@ func init() {
 }
 
 // valid and invalid per-level argvs: spec mismatch, undeclared option, missing value, unconvertible value
-var policyUniverse = [][]string{{}, {"x"}, {"-f", "x"}, {"-z"}, {"-i=zz"}, {"-i", "5"}, {"-o"}, {"zz"}, {"7"}}
+var policyUniverse = [][]string{{}, {"x"}, {"-f", "x"}, {"-z"}, {"-i=zz"}, {"-i", "5"}, {"-o"}, {"zz"}, {"7"}, {"-i=zz", "-i=5"}, {"-"}}
 
 func runPolicy(c *Ctx) {
 	if c.Shard == 0 && c.Begin("policy-rerun") {
